@@ -268,6 +268,10 @@ where
                         excluded: Some(excluded),
                     });
                     self.transition(excluded, Event::Signal);
+                    // every machine has now received its one signal of this
+                    // call: a signal raised in response is not carried over
+                    // to the next call
+                    self.signal_pending = None;
                 }
             }
         }
